@@ -415,6 +415,7 @@ attrconverters = {
 	((DR3DNS,u'end-angle'), None): cnv_string,
 	((DR3DNS,u'focal-length'), None): cnv_length,
 	((DR3DNS,u'horizontal-segments'), None): cnv_string,
+	((DR3DNS,u'lighting-mode'), (STYLENS,u'graphic-properties')): cnv_string, # standard | double-sided
 	((DR3DNS,u'lighting-mode'), None): cnv_boolean,
 	((DR3DNS,u'max-edge'), None): cnv_string,
 	((DR3DNS,u'min-edge'), None): cnv_string,
